@@ -268,3 +268,26 @@ Example C11_example_failing_archives :
   view_at (fst (run0 cfg_fixed os_failing)) [b "r"; b "w"; b "t"; b "d"; b "f"] = VFile (enc 7 420) 0%N /\
   view_at (fst (run0 cfg_fixed os_failing)) [b "r"; b "w"; b "u"; b "d"] = VDir 320%N 0%N.
 Proof. exact failing_ok. Qed.
+
+(* a working directory that does not exist yet (audit F2a): PreInv = Inv, or Inv0 (the working
+   directory is missing, its ancestors are real directories, nothing below it).  The first push
+   that gets that far creates it; everything outside stays untouched throughout.  Partial: titles
+   that denote the working directory itself are excluded (such a named blob would create a
+   regular file where the working directory should be) *)
+Theorem C11_confined_missing_wd_partial :
+  forall (wd : path) (pres : bool) (cwd : path) (os : list pushop) (s s' : store) (oks : list bool),
+    PreInv wd (st_fs s) -> Forall (op_ok wd) os ->
+    pushes cfg_fixed pres wd cwd s os = (s', oks) ->
+    PreInv wd (st_fs s') /\
+    (forall p, inside wd p = false -> view_at (st_fs s') p = view_at (st_fs s) p).
+Proof. exact pushes_keeps0. Qed.
+Print Assumptions C11_confined_missing_wd_partial.
+
+Example C11_example_inv0 : Inv0 wd0 fs3.
+Proof. exact inv0_fs3. Qed.
+
+Example C11_example_first_push_creates_wd :
+  snd (pushes cfg_fixed false wd0 cwd0 (mkStore fs3 [] []) os_first_push) = [false; true; true] /\
+  lookup (st_fs (fst (pushes cfg_fixed false wd0 cwd0 (mkStore fs3 [] []) os_first_push))) wd0 = Some NDir /\
+  view_at (st_fs (fst (pushes cfg_fixed false wd0 cwd0 (mkStore fs3 [] []) os_first_push))) [b "victim"] = view_at fs3 [b "victim"].
+Proof. exact first_push_ok. Qed.
